@@ -130,6 +130,14 @@ def resample [Transc α] [Add α] [Div α] [Neg α] [NatCast α] [LT α] [Decida
        logw := List.replicate N (-(Transc.log (N : α))) ++ res.logw.drop N },
    par.map Int.ofNat)
 
+/-- Successive `resample()` calls on ONE `Resampling` object: the only state the object carries from
+    call to call is its generator, i.e. the stream of draws — call `i` uses draw `i` (a value of
+    `uniform(0, 1/Nᵢ)` for *its own* particle count `Nᵢ`; the distribution object is a local of
+    `resample`).  Nothing else (no particle count, cumulative weights, output weight) survives a call. -/
+def resampleSeq [Transc α] [Add α] [Div α] [Neg α] [NatCast α] [LT α] [DecidableLT α] [Inhabited α] [Inhabited π]
+    (calls : List (PSet π α × PSet π α)) (us : List α) : List (PSet π α × List Int) :=
+  List.zipWith (fun c u => resample c.1 c.2 u) calls us
+
 /-- `num_prior_particles = static_cast<int>(std::floor(cor_particles.state().cols() * prior_ratio_))`;
     `fl` is `std::floor` followed by the conversion to `int`. -/
 def numPrior [Mul α] [NatCast α] (fl : α → Nat) (ratio : α) (cor : PSet π α) : Nat :=
